@@ -56,7 +56,8 @@ Infra = getattr(_main, "Infra", _runner.Infra)
 ID = "C04"
 LEAN_MODULES = ["PyYetiVerif.Props.C04", "PyYetiVerif.Audit.C04", "PyYetiVerif.Model.PyFloat",
                 "PyYetiVerif.Model.Op4Variants", "PyYetiVerif.Model.Op4Input", "PyYetiVerif.Model.Op4AsciiBits",
-                "PyYetiVerif.Model.Op4Fixed", "PyYetiVerif.Props.C04Fix"]
+                "PyYetiVerif.Model.Op4Fixed", "PyYetiVerif.Props.C04Fix", "PyYetiVerif.Model.Op4FixedInput",
+                "PyYetiVerif.Props.C04AsciiBits", "PyYetiVerif.Props.C04FixViews"]
                 # (PyFloat .. Op4Fixed: imported by Drivers/C04.lean; C04Fix: the `_fixed` theorems of the repair candidates)
 AUDIT_FILE = "PyYetiVerif/Audit/C04.lean"
 THEOREMS = [
@@ -76,7 +77,10 @@ THEOREMS = [
         # Props/C04Fix.lean: the binary nonbigmat writer with _split_strings (F2 repaired; Model/Op4Fixed.lean)
         "split_strings_spec nonbigmat_never_overflows_fixed nonbigmat_writes_fixed column_roundtrip_nonbigmat_fixed nonbigmat_unchanged_fixed file_writes_fixed file_roundtrip_binary_fixed write_domain_fixed file_roundtrip_binary_domain_fixed file_roundtrip_bytes_domain_fixed decOf_cases writer_eq_unsplit file_writer_eq_unsplit "
         # Props/C04AsciiBits.lean: the ASCII round trip of whole files in bit patterns, dense and sparse read
-        "entryBits_aEntry file_roundtrip_ascii_bits ascii_bits_entry sparse_view_ascii_toarray"
+        "entryBits_aEntry file_roundtrip_ascii_bits ascii_bits_entry sparse_view_ascii_toarray "
+        # Props/C04FixViews.lean: the sparse views and the sparse-input / argument theorems for the writer with _split_strings
+        "coo_view_correct_fixed sparse_auto_rule_fixed file_views_fixed write_sparse_eq_write_dense_fixed "
+        "write_input_normalised_fixed"
     ).split()
 ]
 TRUSTED = [
@@ -148,13 +152,18 @@ PARTIAL = (
     "_split_strings (F2 repaired in /repo, 27f7d6b) is Model/Op4Fixed.lean encMatWordsFx / writeFileWordsFx: the whole-file "
     "theorems are proved for it without any hypothesis on string lengths (Props/C04Fix.lean: file_writes_fixed, "
     "file_roundtrip_binary_fixed, write_domain_fixed, file_roundtrip_binary_domain_fixed, file_roundtrip_bytes_domain_fixed, "
-    "column_roundtrip_nonbigmat_fixed, split_strings_spec, nonbigmat_never_overflows_fixed); the theorems of Props/C04.lean "
-    "that mention encMatWords / writeFileWords (sparse inputs write_sparse_eq_write_dense, coo_view_correct, sparse_auto_rule, "
-    "write_input_normalised, file_roundtrip_bytes, file_writes_iff, C11's skip_positions) are about the encoder WITHOUT the "
-    "split, which is the writer whenever no run of non-zero rows exceeds 16383 // multiplier (writer_eq_unsplit, "
-    "file_writer_eq_unsplit): for matrices with longer strings those statements are tied by the enc / dec streams (16384-row "
-    "files, ndarray and scipy.sparse input, three read modes), not proved; the driver's wr stream uses the unsplit "
-    "writeAllWords (its inputs have at most 40 rows); (7) F3 is swapped in place (fmtE = numform(value)): read_back_bits* "
+    "column_roundtrip_nonbigmat_fixed, split_strings_spec, nonbigmat_never_overflows_fixed), and so are the sparse views "
+    "(coo_view_correct_fixed, sparse_auto_rule_fixed, file_views_fixed: same triplets, same sparse=None rule, same "
+    ".toarray()), the scipy.sparse branch of the splitting writer (Model/Op4FixedInput.lean spStringsFx / "
+    "encMatWordsSpFx / writeOneWordsFx: write_sparse_eq_write_dense_fixed) and the argument plumbing in front of it "
+    "(writeAllWordsFx: write_input_normalised_fixed; the driver's wr stream runs writeAllWordsFx). Still about the "
+    "encoder WITHOUT the split: file_roundtrip_bytes / file_roundtrip_bytes_domain and file_writes_iff of Props/C04.lean "
+    "(their _fixed counterparts are file_roundtrip_bytes_domain_fixed and file_writes_fixed) and C11's skip_positions; "
+    "the unsplit encoder is the writer whenever no run of non-zero rows exceeds 16383 // multiplier (writer_eq_unsplit, "
+    "file_writer_eq_unsplit). The wr stream's inputs have at most 40 rows, so the split of a scipy.sparse column is "
+    "exercised against the code through the enc / dec streams only (16384-row real and 8192-row complex strings handed "
+    "over as ndarray and as scipy.sparse, three read modes: the Lean side is encFileBytesFx on the ndarray the input "
+    "stands for, which write_sparse_eq_write_dense_fixed proves equal to the sparse branch) and by the oracle; (7) F3 is swapped in place (fmtE = numform(value)): read_back_bits* "
     "carry the hypothesis Wide d b = false or 17 <= d - a negative value with a 3-digit exponent written with the default 16 "
     "digits reads back to 16 significant digits, not bit-identical"
 )
@@ -165,7 +174,7 @@ MANIFEST = {
     "Binary: for every non-empty list of matrices, layout and byte order on the writer's own domain (every integer handed "
     "to struct.pack fits: write_domain), decodeBytes of the written bytes is the written names (lower-cased), shapes, forms, "
     "types and columns (file_roundtrip_bytes_domain / file_roundtrip_binary_domain; -0.0 outside written strings reads as "
-    "+0.0); nonbigmat strings are split at 16383 // multiplier rows (_split_strings, F2 repaired: split_strings_spec, nonbigmat_never_overflows_fixed), so the writer fails only outside that domain (file_writes_fixed; the whole-file theorems for the splitting writer are the _fixed ones of Props/C04Fix.lean, those for the unsplit encoder coincide with it below 16384-row strings: writer_eq_unsplit). "
+    "+0.0); nonbigmat strings are split at 16383 // multiplier rows (_split_strings, F2 repaired: split_strings_spec, nonbigmat_never_overflows_fixed), so the writer fails only outside that domain (file_writes_fixed; the whole-file theorems for the splitting writer are the _fixed ones of Props/C04Fix.lean, those for the unsplit encoder coincide with it below 16384-row strings: writer_eq_unsplit; the sparse views, the scipy.sparse branch and the argument plumbing are proved for the splitting writer too: coo_view_correct_fixed, sparse_auto_rule_fixed, file_views_fixed, write_sparse_eq_write_dense_fixed, write_input_normalised_fixed). "
     "sparse=True returns exactly the stored elements as (row, col, value) triplets in file order - the non-zero elements "
     "for the sparse layouts, everything from the first to the last non-zero row for the dense layout - and its .toarray() "
     "is the dense read up to the sign of zeros (coo_view_correct, storedIdx_spec); sparse=None returns a sparse matrix iff "
@@ -909,6 +918,11 @@ def _big_string_cases():
         D[at : at + rows, 0] = (1.0 + 2.0j) if cplx else 1.0
         out.append({"mats": [{"kind": "ndarray", "cplx": cplx, "D": D}], "names": ["big"], "forms": [2],
                     "opt": "nonbigmat", "endian": "<", "digits": 16})
+        if rows in (16384, 8192):
+            # the same string handed over as a scipy.sparse matrix: the `else  # sparse matrix` branch of
+            # _write_binary_sparse splits too (spStringsFx; write_sparse_eq_write_dense_fixed)
+            out.append({"mats": [{"kind": "sparse", "cplx": cplx, "D": D.copy()}], "names": ["bigsp"], "forms": [2],
+                        "opt": "nonbigmat", "endian": "<", "digits": 16})
     return out
 
 
